@@ -141,8 +141,10 @@ def params_image(est, deep=True):
 
 
 # ----------------------------------------------------------------------------- inner-estimator spec pools
-def s_regressor(draw, recording=False):
-    k = draw(st.sampled_from(["LinearRegression", "DecisionTreeRegressor", "DummyRegressor", "Ridge"] + (["RecordingRegressor"] if recording else [])))
+def s_regressor(draw, recording=False, kwargs_fit=False):
+    # kwargs_fit: also a duck-typed model whose fit(X, y, **fit_params) names no parameter (what meta-estimators' fit signatures look like)
+    k = draw(st.sampled_from(["LinearRegression", "DecisionTreeRegressor", "DummyRegressor", "Ridge"] + (["RecordingRegressor"] if recording else [])
+                             + (["KwargsRegressor"] if kwargs_fit else [])))
     if k == "LinearRegression":
         return dict(cls=k, params=dict(fit_intercept=draw(st.booleans())))
     if k == "DecisionTreeRegressor":
@@ -395,7 +397,7 @@ class _KML(Entry):
     def spec(self, draw):
         return dict(cls=self.name, params=dict(n_clusters=draw(st.integers(1, 3)), norm=draw(st.sampled_from(["L1", "L2"])),
                                                init=draw(st.sampled_from(["k-means++", "random"])), n_init=draw(st.integers(1, 2)),
-                                               random_state=draw(st.one_of(st.none(), st.integers(0, 9))), max_iter=draw(st.sampled_from([5, 20]))))
+                                               random_state=draw(st.one_of(st.none(), st.integers(0, 9))), max_iter=draw(st.sampled_from([5, 20, 6, 21]))))
 
     def attributes(self, est):
         return dict(cluster_centers_=est.cluster_centers_, labels_=est.labels_, inertia_=est.inertia_)
@@ -416,7 +418,7 @@ class _CKM(Entry):
         strategy = draw(st.sampled_from(["distance", "gain", "distance", "gain", "weights"]))
         return self._consistent(dict(cls=self.name, params=dict(n_clusters=k, strategy=strategy, init=init,
                                                kmeans0=draw(st.booleans()), random_state=draw(st.one_of(st.none(), st.integers(0, 9))),
-                                               max_iter=draw(st.sampled_from([4, 10])), n_init=draw(st.sampled_from([1, 3])),
+                                               max_iter=draw(st.sampled_from([4, 10, 5, 7, 11])), n_init=draw(st.sampled_from([1, 3])),
                                                balanced_predictions=draw(st.booleans()))))
 
     @staticmethod
@@ -526,7 +528,13 @@ class _CAK(Entry):
         return dict(cls=self.name, params=dict(estimator=s_classifier(draw, warm=True), clus=s_kmeans(draw)))
 
     def data(self, draw):
-        return d_clf(draw, n_min=12, n_max=24)
+        d = d_clf(draw, n_min=12, n_max=24)
+        if draw(st.integers(0, 3)) == 0:
+            # one class is a single point repeated (fewer distinct points than clusters: its k-means converges on duplicated centres)
+            lab = d["y"][0]
+            first = list(d["X"][0])
+            d["X"] = [list(first) if yi == lab else row for row, yi in zip(d["X"], d["y"])]
+        return d
 
     def available(self, est):
         ms = ["predict", "predict_proba"]
@@ -839,7 +847,11 @@ def _p_skbase(name):
     def f(draw, flavour=0):
         # kwargs holders: any key set (a set_params between different key sets is checked as "reports at least the given keys")
         keys = draw(st.lists(st.sampled_from(["alpha", "beta", "mode", "k"]), min_size=1, max_size=3, unique=True))
-        return dict(cls=name, params={k: draw(st.sampled_from([1, 2, 0.5, "x", "y", None])) for k in keys})
+        params = {k: draw(st.sampled_from([1, 2, 0.5, "x", "y", None])) for k in keys}
+        if draw(st.integers(0, 2)) == 0:
+            # a model kept among the keyword parameters (a holder wrapping a learner)
+            params["base"] = dict(cls="LogisticRegression", params=dict(C=draw(st.sampled_from([0.5, 1.0, 2.0, 4.0])), max_iter=draw(st.sampled_from([100, 300]))))
+        return dict(cls=name, params=params)
     return f
 
 
